@@ -120,7 +120,8 @@ func (sandbox *SSHSandbox) initSequence(envs commservices.Environments) (reader 
 		eofTag = varutil.HeredocTag(values...)
 	}
 	for key, value := range envs.All() {
-		initCode += key + "=$(cat <<'" + eofTag + "'\n" + value + "\n" + eofTag + "\n)\n"
+		// "command -p" looks cat up in the default path: one of the variables may be PATH itself
+		initCode += key + "=$(command -p cat <<'" + eofTag + "'\n" + value + "\n" + eofTag + "\n)\n"
 		initCode += "export " + key + "\n"
 	}
 	initCode += sandbox.entrypoint + "\n"
